@@ -151,5 +151,25 @@ structure QMEnv (σ ρ π : Type) where
   /-- `r.stableRoutes[key]` -/
   stable : σ → Bytes → Option ρ
 
+/-- what `Router.match` works on: the static table, the route cache, the two maps of route lists, and the
+    per-route operations, over an abstract router state `σ`, routes `ρ`, params `π` -/
+structure MEnv (σ ρ π : Type) where
+  /-- `r.stableRoutes[key]` -/
+  stable : σ → Bytes → Option ρ
+  /-- `r.cachedRoutes.Get(key)`: (route, found) and the new state (recency changes) -/
+  cacheGet : σ → Bytes → (Option ρ × Bool) × σ
+  /-- `route.params.clone()` of a cached route -/
+  paramsClone : Option ρ → Option π
+  /-- `r.regularRoutes[key]`: (list, present) -/
+  regular : σ → Bytes → List ρ × Bool
+  /-- `r.irregularRoutes[method]`: (list, present) -/
+  irregular : σ → Bytes → List ρ × Bool
+  /-- `route.start` -/
+  start : ρ → Bytes
+  /-- `route.matchRegex(path)`: (params, matched) -/
+  matchRegex : ρ → Bytes → Option π × Bool
+  /-- `r.cacheDynamicRoute(key, ps, route)` -/
+  cacheDynamic : σ → Bytes → Option π → ρ → σ
+
 end GoRt
 end Rux
